@@ -137,7 +137,8 @@ def r42(repo, ctx):
         ok_bc = len(bc) == 1 and len(bc[0].args) == 2 and U.chain(bc[0].args[0]) == ('self', 'elements') and isinstance(bc[0].args[1], ast.Name) and bc[0].args[1].id == R
         stores = [s for s in ast.walk(f) if isinstance(s, (ast.Assign, ast.AugAssign)) and any(isinstance(t, ast.Subscript) and isinstance(t.value, ast.Name) and t.value.id == R for t in U.flat_targets(s))]
         interior = all(isinstance(t.slice, ast.Tuple) and slice_key(t.slice).endswith(',1:-1]') for s in stores for t in U.flat_targets(s) if isinstance(t, ast.Subscript))
-        last = bool(bc) and all(s.lineno < bc[0].lineno for s in stores) and all(s.lineno < bc[0].lineno for s in init)
+        sq = U.seq(f)
+        last = bool(bc) and all(sq[id(s)] < sq[id(bc[0])] for s in stores) and all(sq[id(s)] < sq[id(bc[0])] for s in init)
         ctx.check(ok_init and ok_bc and interior and last and bool(stores), 'R4.2', path, q, bc[0] if bc else f,
                   'face array of N+1 columns, interior faces 1:-1 filled by the model, end faces written last by the boundary-condition table',
                   f'flux routine does not (create N+1 faces: {ok_init}, fill interior faces only: {interior}, apply the boundary table to the returned array: {ok_bc}, as the last writer: {last})',
@@ -194,7 +195,7 @@ def r44_r45(repo, ctx, index):
         a = clip.value.args
         ok = len(a) == 3 and U.chain(a[0]) == ('self', 'x') and U.chain(a[1]) == ('self', 'constraints', 'minComposition') \
             and isinstance(a[2], ast.BinOp) and isinstance(a[2].op, ast.Sub) and U.is_const(a[2].left, 1) and U.chain(a[2].right) == ('self', 'constraints', 'minComposition')
-    ctx.check(ok and rec is not None and clip.lineno < rec.lineno, 'R4.4', D, q, clip or f, 'compositions are clipped to [minComposition, 1 - minComposition] before they are recorded',
+    ctx.check(ok and rec is not None and U.seq(f)[id(clip)] < U.seq(f)[id(rec)], 'R4.4', D, q, clip or f, 'compositions are clipped to [minComposition, 1 - minComposition] before they are recorded',
               'the new compositions are not clipped to [minComposition, 1 - minComposition] before recording')
     pn = U.params(f)
     st = [s for s in f.body if isinstance(s, ast.Assign) and U.chain(s.targets[0]) == ('self', 't')]
